@@ -586,8 +586,6 @@ def replay(ctx, q, f, qdir):
     lines.append(" * expected   : prints REPLAY-FAIL / sanitizer report / abort  => violation reproduced")
     lines.append(" */")
     lines.append('#include "%s"' % hpath)
-    for e in entries_in(htxt):
-        lines.append("struct in_%s REPLAY_in_%s;" % (e, e))
     lines.append("int main(void) {")
     for path, l in sorted(vals.items()):
         lines.append("\tREPLAY_in_%s%s = %s;" % (q.entry, path, l))
